@@ -92,8 +92,8 @@ def main():
     elif len(sys.argv) >= 2 and sys.argv[1] == "import":
         # import the deliverables of a mutation sub-agent: /tmp/seed/<pid>/out/{A,B}
         for pid in sys.argv[2:]:
-            for x in ("A", "B", "C", "D"):
-                src = f"/tmp/seed/{pid}/out/{x}"
+            for x in ("A", "B", "C", "D", "E"):
+                src = f"{os.environ.get('SEED_BASE', '/tmp/seed')}/{pid}/out/{x}"
                 if not os.path.exists(os.path.join(src, "patch.diff")):
                     continue
                 dst = os.path.join(SEEDED, f"{pid}-{x}")
